@@ -186,6 +186,8 @@ var c09Mem = []string{
 	`a = (0:200) * %d; len(a + a)`,
 	`mrec = macro(x) { func mf(n) { mf(n + 1) }; mf(%d) }` + "\n" + `mrec(1)`,
 	`func ff(n) { if true { if true { if true { len([ff(n + 1)]) } } } }` + "\n" + `ff(%d)`,
+	`bs9 = "x" * 4000000; len(bs9 * %d)`,
+	`ba9 = [7] * 400000; len(ba9 * %d)`,
 	`cyc = [1, 2, 3, 4, 5, 6, 7, 8, 9, 10 + %d]; cyc[0] = cyc; len(str(cyc))`,
 	`cyc = {1: 1, 2: 2, 3: 3, 4: 4, 5: 5, 6: 6 + %d}; cyc[1] = cyc; len(str(cyc))`,
 } // keep the length odd: memory runs are those with run%3 == 2 and run%12 != 11
@@ -194,6 +196,7 @@ var c09Mem = []string{
 var c09Unit = map[string]int64{
 	`len("abcdefgh" * `: 1, `len([1, 2, 3] * `: 16, `len(0:`: 16, `len((0:1000) * `: 16, `len(join([1, 2, 3] * `: 1,
 	`len(split("a," * `: 16, `len(runes("ab" * `: 16, `len(str("q" * `: 1,
+	`bs9 = "x" * 4000000; len(bs9 * `: 1, `ba9 = [7] * 400000; len(ba9 * `: 16,
 }
 
 var c09Operands = []int64{3_000_000, 6_000_000, 20_000_000, 0, 1, 7, 40, 62, 63, 64, 1000, 70000, 1 << 20, 1 << 24, 1<<31 - 1, 1 << 31, 1<<31 + 1, 1 << 32, 1 << 40, 1 << 62, 1<<62 + 1, 1<<63 - 1, 3074457345618258603, 6148914691236517206}
@@ -230,7 +233,11 @@ func (c09) Generate(r *core.Rng, run int, tier string) *core.History {
 			cap = 4000
 		}
 		h.Cfg["cap"] = int64(cap)
-		h.Events = []core.Event{{Ev: "prelude", Text: p.prelude}, {Ev: "program", Text: p.text, N: int64(p.depth), Key: p.key}}
+		endless := int64(0)
+		if p.endless && p.depth > 0 {
+			endless = 1 // a loop that cannot end by itself (the recursions end in the depth guard)
+		}
+		h.Events = []core.Event{{Ev: "prelude", Text: p.prelude}, {Ev: "program", Text: p.text, N: int64(p.depth), M: endless, Key: p.key}}
 	case 1:
 		p := c09Depth[(run/3)%len(c09Depth)]
 		m := 10 + r.Intn(2990)
@@ -256,6 +263,9 @@ func (c09) Generate(r *core.Rng, run int, tier string) *core.History {
 		n := core.Pick(r, c09Operands)
 		if strings.Contains(tpl, "for %d") && !strings.Contains(tpl, "m[i]") {
 			n = int64(core.Pick(r, []int{1, 10, 24, 30, 40, 62, 70})) // doubling loops: 2^n
+		}
+		if strings.HasPrefix(tpl, "bs9 = ") || strings.HasPrefix(tpl, "ba9 = ") {
+			n = int64(core.Pick(r, []int{2, 9, 12, 15, 16, 40, 100})) // a LARGE operand repeated a small number of times
 		}
 		if strings.Contains(tpl, "m[i]") {
 			n = int64(core.Pick(r, []int{10, 1000, 200000}))
@@ -283,6 +293,9 @@ func (c09) Generate(r *core.Rng, run int, tier string) *core.History {
 		}
 		h.Cfg["maxdepth"] = int64(core.Pick(r, []int{0, 1000, 150000}))
 		h.Flags["simmem"] = r.Bool(.5) // deterministic budget through H3 vs the real runtime reading
+		if strings.HasPrefix(tpl, "bs9 = ") || strings.HasPrefix(tpl, "ba9 = ") {
+			h.Flags["simmem"] = true // the verdict needs the exact budget: 4 MB x n against 32 MiB
+		}
 		h.Events = []core.Event{{Ev: "program", Text: fmt.Sprintf(tpl, n), N: n}}
 	}
 	return h
@@ -356,6 +369,13 @@ func (c09) execDeadline(h *core.History) *core.Outcome {
 	T := capT
 	if !probe.Fired {
 		T = min(probe.Ticks, capT)
+		for i := range h.Events {
+			if h.Events[i].Ev == "program" && h.Events[i].M == 1 {
+				// virtual time only advances when the evaluator polls the context: an endless loop that "finished"
+				// before tick cap+1 ran (for real seconds) without looking at the deadline at all
+				fail("evaluation-polls-the-deadline", fmt.Sprintf("%q cannot end by itself, yet it returned %s after only %d context polls with the deadline at tick %d never reached: the loop ran without polling the context", prog, probe.Class, probe.Ticks, capT+1))
+			}
+		}
 	}
 	classes := map[string]int{}
 	for k := int64(1); k <= T; k++ {
